@@ -89,23 +89,38 @@ def rule_bijection(ctx):
         ctx.check(ok, "BoardBuilder::%s:forwards" % name, "BoardBuilder::%s forwards (color, value) to the bitboard builder's %s" % (name, name), fb.where(0), bad_what="BoardBuilder::%s does not forward to Builder::%s with the same arguments" % (name, name))
     # get_piece_kind: each returned kind is selected by its own bitboard (and its colour's union)
     gk = ctx.body("board::piece_bitboards::PieceBitboards::get_piece_kind")
-    gsym = ctx.sym(gk)
+    from . import cases
+    run = cases.run(ix, gk, {})
     rows = 0
-    for bi, i, s in gk.stmts():
-        if not (mir.is_local(s["lhs"]) and s["lhs"]["l"] == 0):
+    seen_rows = {}
+    allf = tables.PIECE_FIELDS | {"white_pieces", "black_pieces"}
+    for p in run.paths:
+        if p.end != "return" or p.ret is None or not (p.ret[0] == "agg" and p.ret[2] == "Some"):
             continue
-        v = gsym.rvalue(s["rv"])
-        if not (v[0] == "agg" and v[2] == "Some"):
+        kd = p.ret[3][0]
+        if not (kd[0] == "agg" and kd[3] and kd[3][0][0] == "agg"):
+            seen_rows[("?", expr_str(kd)[:40])] = None
             continue
-        kd = v[3][0]
         kind, col = kd[2], kd[3][0][2]
-        cons = C.constraints_for(ix, gk, gsym, bi)
-        pos = [f for c in cons if c[3][0] == "call" and c[3][1].endswith("Bitboard::is_empty") and False in c[1] for f in tables.PIECE_FIELDS | {"white_pieces", "black_pieces"} if "." + f in c[0] or "self." + f in c[0]]
-        want = {tables.oracle_field(kind, col), "%s_pieces" % col.lower()}
+        pos = set()
+        for cd in p.conds:
+            d, t = cases.cond_truth(cd)
+            if d[0] == "call" and d[1].endswith("Bitboard::is_empty") and t is False:
+                txt = expr_str(d)
+                pos |= {f for f in allf if ("." + f) in txt}
+        seen_rows.setdefault((col, kind), set())
+        seen_rows[(col, kind)] = pos if not seen_rows[(col, kind)] else seen_rows[(col, kind)] & pos if pos else seen_rows[(col, kind)]
+    for (col, kind), pos in sorted(seen_rows.items(), key=str):
         rows += 1
         n += 1
-        ctx.check(set(pos) == want, "get_piece_kind:%s-%s" % (col, kind), "get_piece_kind returns %s(%s) when its mask hits %s" % (kind, col, sorted(pos)), gk.where(bi),
+        if pos is None:
+            ctx.bad("get_piece_kind:unreadable-row:%s" % kind, "get_piece_kind returns `%s`, not a constant kind and colour (cannot decide)" % kind, gk.where(0))
+            continue
+        want = {tables.oracle_field(kind, col), "%s_pieces" % col.lower()}
+        ok = tables.oracle_field(kind, col) in pos and pos <= want
+        ctx.check(ok, "get_piece_kind:%s-%s" % (col, kind), "get_piece_kind returns %s(%s) when its mask hits %s" % (kind, col, sorted(pos)), gk.where(0),
                   bad_what="get_piece_kind returns %s(%s) on a hit in %s (expected %s)" % (kind, col, sorted(pos), sorted(want)))
+    ctx.check(not run.overflow, "get_piece_kind:paths-enumerated", "%d path(s) of get_piece_kind enumerated" % len(run.paths), gk.where(0), bad_what="too many paths in get_piece_kind (cannot decide)")
     ctx.check(rows == 12, "get_piece_kind:twelve-rows", "get_piece_kind distinguishes 12 pieces", gk.where(0), bad_what="get_piece_kind has %d Some(..) returns" % rows)
     # Builder::build copies each field to the like-named bitboard; unions are complete
     bd = ctx.body(PBB + "build")
